@@ -1,0 +1,10 @@
+//go:build !verif
+
+package node
+
+import "github.com/youzan/ZanRedisDB/raft"
+
+// verifCrashPoint is a no-op unless built with -tags verif (see verif_crash.go).
+func verifCrashPoint(name string, args ...uint64) {}
+
+func verifReady(rd *raft.Ready) []uint64 { return nil }
